@@ -1,4 +1,5 @@
 import Originium.Model.Skiplist
+import Originium.Model.SkipArena
 import Originium.Model.VKey
 /-! # C17 — the skiplist behaves as a sorted map of versioned keys
 
@@ -97,6 +98,137 @@ theorem C17_queries (maxLevel : Nat) (hm : 0 < maxLevel) (ops : List SkipOp) (hh
   · intro a b; rw [← hall]; exact scan_eq vlt vlt_trans hm hw a b
   · intro k; rw [← hall]; exact (delete_all vlt vlt_trans vlt_irrefl hm hw k).2
 
+
+/-! ## the pointer level (`Model/SkipArena.lean`)
+
+The theorems above are about the tower model, which abstracts the `next[i]` pointers.  The pointer
+model has them: `nxt src i` is `src.next[i]`; `Set` runs the search loop over the pointers, fills
+`update[]` and relinks (`e.next[i] = update[i].next[i]; update[i].next[i] = e`), `Delete` unlinks
+level by level until `update[i].next[i] != curr` and lowers `s.level`, `All` and `Scan` walk level
+0.  Its state always *represents* the tower list (`SkipArena.Rep`: level `i` is the chain of the
+nodes of height `> i` in key order), so everything proved for the tower model holds for it. -/
+
+def HeightsIn (maxLevel : Nat) : List SkipOp → Prop
+  | [] => True
+  | .set _ h :: rest => (1 ≤ h ∧ h ≤ maxLevel) ∧ HeightsIn maxLevel rest
+  | .delete _ :: rest => HeightsIn maxLevel rest
+
+def stepT (maxLevel : Nat) (l : List (Node VK)) : SkipOp → List (Node VK)
+  | .set e h => Skiplist.set vlt maxLevel l e h
+  | .delete k => (Skiplist.delete vlt maxLevel l k).1
+
+def stepA (maxLevel fuel : Nat) (s : SkipArena.SL VK) : SkipOp → SkipArena.SL VK
+  | .set e h => SkipArena.setA vlt s maxLevel e h fuel
+  | .delete k => (SkipArena.deleteA vlt s maxLevel k fuel).1
+
+/-- the pointer model after a sequence of operations (`fuel` bounds its loops) -/
+def arenaRun (maxLevel fuel : Nat) (ops : List SkipOp) : SkipArena.SL VK :=
+  ops.foldl (stepA maxLevel fuel) SkipArena.emptySL
+
+theorem skipRun_foldl (maxLevel : Nat) (ops : List SkipOp) : skipRun maxLevel ops = ops.foldl (stepT maxLevel) [] := by
+  cases ops with
+  | nil => rfl
+  | cons op ops =>
+    simp only [skipRun]
+    congr 1
+
+theorem stepT_length (maxLevel : Nat) (l : List (Node VK)) (op : SkipOp) : (stepT maxLevel l op).length ≤ l.length + 1 := by
+  cases op with
+  | set e h =>
+    simp only [stepT, Skiplist.set]
+    split
+    · split
+      · simp
+      · simp only [List.length_append, List.length_take, List.length_cons, List.length_drop]; omega
+    · simp only [List.length_append, List.length_take, List.length_cons, List.length_drop]; omega
+  | delete k =>
+    simp only [stepT, Skiplist.delete]
+    split
+    · split
+      · have := List.length_eraseIdx_le l (findPos vlt maxLevel k l); dsimp only; omega
+      · dsimp only; omega
+    · dsimp only; omega
+
+theorem stepT_wf {maxLevel : Nat} (hm : 0 < maxLevel) {l : List (Node VK)} (hw : WF vlt l) (op : SkipOp)
+    (hh : match op with | .set _ h => 0 < h | .delete _ => True) : WF vlt (stepT maxLevel l op) := by
+  cases op with
+  | set e h => exact set_wf vlt vlt_trans vlt_irrefl vlt_total hm hw e hh
+  | delete k => exact delete_wf hm hw k
+
+/-- **the pointer structure always represents the tower list**, for every sequence of `Set` and
+    `Delete` with tower heights in `1..maxLevel` -/
+theorem C17_pointer_level_rep (maxLevel : Nat) (hm : 0 < maxLevel) (ops : List SkipOp) (hh : HeightsIn maxLevel ops)
+    (fuel : Nat) (hf : ops.length ≤ fuel) :
+    SkipArena.Rep maxLevel (arenaRun maxLevel fuel ops) (skipRun maxLevel ops) ∧ WF vlt (skipRun maxLevel ops) ∧
+    (skipRun maxLevel ops).length ≤ ops.length := by
+  rw [skipRun_foldl]
+  unfold arenaRun
+  have key : ∀ (ops : List SkipOp) (s : SkipArena.SL VK) (l : List (Node VK)), HeightsIn maxLevel ops →
+      SkipArena.Rep maxLevel s l → WF vlt l → l.length + ops.length ≤ fuel →
+      SkipArena.Rep maxLevel (ops.foldl (stepA maxLevel fuel) s) (ops.foldl (stepT maxLevel) l) ∧
+      WF vlt (ops.foldl (stepT maxLevel) l) ∧ (ops.foldl (stepT maxLevel) l).length ≤ l.length + ops.length := by
+    intro ops
+    induction ops with
+    | nil => intro s l _ hr hw _; exact ⟨hr, hw, by simp⟩
+    | cons op ops ih =>
+      intro s l hh hr hw hlen
+      simp only [List.foldl_cons, List.length_cons] at hlen ⊢
+      cases op with
+      | set e h =>
+        have hl1 := stepT_length maxLevel l (.set e h)
+        have hh' : (1 ≤ h ∧ h ≤ maxLevel) ∧ HeightsIn maxLevel ops := hh
+        have hr' := SkipArena.rep_set vlt vlt_trans vlt_irrefl vlt_total hm hr hw e hh'.1 (fuel := fuel) (by omega)
+        have hw' := stepT_wf hm hw (.set e h) (by show 0 < h; omega)
+        obtain ⟨a, b, c⟩ := ih (stepA maxLevel fuel s (.set e h)) (stepT maxLevel l (.set e h)) hh'.2 hr' hw' (by omega)
+        exact ⟨a, b, by omega⟩
+      | delete k =>
+        have hl1 := stepT_length maxLevel l (.delete k)
+        have hr' := (SkipArena.rep_delete vlt vlt_trans vlt_irrefl vlt_total hm hr hw k (fuel := fuel) (by omega)).1
+        have hw' := stepT_wf hm hw (.delete k) trivial
+        obtain ⟨a, b, c⟩ := ih (stepA maxLevel fuel s (.delete k)) (stepT maxLevel l (.delete k)) hh hr' hw' (by omega)
+        exact ⟨a, b, by omega⟩
+  have h0 : WF vlt ([] : List (Node VK)) := ⟨by simp [SortedN], by simp⟩
+  obtain ⟨a, b, c⟩ := key ops SkipArena.emptySL [] hh (SkipArena.rep_empty maxLevel hm) h0 (by simpa using hf)
+  exact ⟨a, b, by simpa using c⟩
+
+/-- the observable operations of the pointer model — search over the pointers, then `next[0]` —
+    return what the sorted map returns, in every reachable state -/
+theorem C17_pointer_level_queries (maxLevel : Nat) (hm : 0 < maxLevel) (ops : List SkipOp) (hh : HeightsIn maxLevel ops)
+    (fuel : Nat) (hf : ops.length < fuel) :
+    let s := arenaRun maxLevel fuel ops
+    let m := specRun ops
+    (∀ k, SkipArena.getA vlt s maxLevel k fuel = Spec.get m k) ∧
+    (∀ k, SkipArena.lowerBoundA vlt s maxLevel k fuel = Spec.lowerBound vlt m k) ∧
+    (∀ a b, SkipArena.scanA vlt s maxLevel a b fuel = Spec.scan vlt m a b) ∧
+    SkipArena.allA s fuel = m ∧
+    (∀ k, (SkipArena.deleteA vlt s maxLevel k fuel).2 = (Spec.get m k).isSome) := by
+  obtain ⟨hr, hw, hlen⟩ := C17_pointer_level_rep maxLevel hm ops hh fuel (Nat.le_of_lt hf)
+  have hok : HeightsOk ops := by
+    clear hr hw hlen hf
+    induction ops with
+    | nil => trivial
+    | cons op ops ih =>
+      cases op with
+      | set e h => exact ⟨by have := hh.1.1; omega, ih hh.2⟩
+      | delete k => exact ih hh
+  obtain ⟨q1, q2, q3, q4, q5⟩ := C17_queries maxLevel hm ops hok
+  refine ⟨?_, ?_, ?_, ?_, ?_⟩
+  · intro k; rw [SkipArena.getA_eq vlt vlt_trans vlt_irrefl hm hr hw k (by omega)]; exact q1 k
+  · intro k; rw [SkipArena.lowerBoundA_eq vlt vlt_trans vlt_irrefl hm hr hw k (by omega)]; exact q2 k
+  · intro a b; rw [SkipArena.scanA_eq vlt vlt_trans vlt_irrefl hm hr hw a b (by omega)]; exact q3 a b
+  · rw [SkipArena.allA_eq vlt vlt_irrefl hm hr hw (by omega)]; exact q4
+  · intro k
+    rw [(SkipArena.rep_delete vlt vlt_trans vlt_irrefl vlt_total hm hr hw k (fuel := fuel) (by omega)).2]
+    exact q5 k
+
+/-- non-vacuity: the pointer model on a concrete sequence (insert out of order, overwrite, delete the tallest node, re-insert) -/
+example :
+    let e (u : UInt8) (ts : Nat) (v : UInt8) : SE := ⟨⟨[u], ts⟩, [v], false, ts⟩
+    let ops : List SkipOp := [.set (e 98 1 1) 2, .set (e 97 1 2) 1, .set (e 98 2 3) 3, .set (e 97 1 9) 2,
+      .delete ⟨[98], 2⟩, .set (e 98 2 4) 1]
+    SkipArena.allA (arenaRun 4 10 ops) 10 = [e 97 1 9, e 98 2 4, e 98 1 1] := by
+  decide
+
 /-- the sorted map itself: strictly sorted by (user ↑, version ↓); setting an existing versioned key
     replaces its value and tombstone flag and nothing else -/
 theorem C17_spec_sorted (ops : List SkipOp) : SortedE vlt (specRun ops) := by
@@ -163,6 +295,8 @@ example : HeightsOk [.set ⟨⟨[97], 1⟩, [1], false, 1⟩ 2, .delete ⟨[97],
   simp [HeightsOk]
 
 #print axioms C17_refines
+#print axioms C17_pointer_level_rep
+#print axioms C17_pointer_level_queries
 #print axioms C17_queries
 #print axioms C17_spec_sorted
 #print axioms C17_set_existing
